@@ -208,6 +208,8 @@ pub fn build_medium(recs: &mut Vec<Rec>, r: &mut Rng, plan: &FaultPlan, st: &mut
     let mut block_ops: Vec<usize> = vec![];
     let payload_only = plan.confine == Confine::Payload;
     let mut in_rec_faults: Vec<(usize, usize, u8)> = vec![]; // (record idx, offset in record, kind)
+    // torn write: the medium ends inside record `torn.0` after `torn.1` bytes, a fill tail follows
+    let mut torn: Option<(usize, usize)> = None;
 
     let real: Vec<usize> = recs.iter().enumerate().filter(|(_, x)| x.kind != "junk").map(|(i, _)| i).collect();
     if plan.pfx_tail_pair && !real.is_empty() {
@@ -219,8 +221,15 @@ pub fn build_medium(recs: &mut Vec<Rec>, r: &mut Rng, plan: &FaultPlan, st: &mut
             rec.bytes[sl] & 0x02 != 0
         };
         let _ = be;
-        if let Some(g) = pick_region(r, &recs[ri], true, Some(&[Region::LenPrefix])).cloned() {
-            let o = if g.end - g.start >= 4 && r.bool() { g.start + 2 } else { g.start };
+        let want_torn = r.bool();
+        let g = if want_torn {
+            // the last length prefix of the record: whatever follows it comes from the fill
+            recs[ri].regs.iter().filter(|g| g.kind == Region::LenPrefix).last().cloned()
+        } else {
+            pick_region(r, &recs[ri], true, Some(&[Region::LenPrefix])).cloned()
+        };
+        if let Some(g) = g {
+            let o = if want_torn { g.start } else if g.end - g.start >= 4 && r.bool() { g.start + 2 } else { g.start };
             if recs[ri].bytes[o] != 0xff || recs[ri].bytes[o + 1] != 0xff {
                 recs[ri].bytes[o] = 0xff;
                 recs[ri].bytes[o + 1] = 0xff;
@@ -228,6 +237,13 @@ pub fn build_medium(recs: &mut Vec<Rec>, r: &mut Rng, plan: &FaultPlan, st: &mut
                 st.inc("F-PFX=FFFF+tail");
                 in_rec_faults.push((ri, o, F_PFX as u8));
                 m.notes.push(format!("F-PFX rec{} off{} =FFFF (paired with tail)", ri, o));
+                if want_torn {
+                    // torn write right after the prefix group: what follows is the fill of the
+                    // never-written sectors (0xFF on flash, blanks, ...), i.e. NUL-free bytes
+                    torn = Some((ri, g.end));
+                    st.inc("F-TORN+fill");
+                    m.notes.push(format!("torn write: medium ends in rec{} after {} bytes, fill tail follows", ri, g.end));
+                }
             }
         }
     }
@@ -394,7 +410,16 @@ pub fn build_medium(recs: &mut Vec<Rec>, r: &mut Rng, plan: &FaultPlan, st: &mut
     }
 
     // lay out
-    for rec in recs.iter() {
+    for (idx, rec) in recs.iter().enumerate() {
+        if let Some((ri, keep)) = torn {
+            if idx == ri {
+                let base = m.bytes.len();
+                m.starts.push(base);
+                m.bytes.extend_from_slice(&rec.bytes[..keep.min(rec.bytes.len())]);
+                m.aligned = false;
+                break;
+            }
+        }
         let base = m.bytes.len();
         m.starts.push(base);
         m.boundaries.push(base);
@@ -414,7 +439,9 @@ pub fn build_medium(recs: &mut Vec<Rec>, r: &mut Rng, plan: &FaultPlan, st: &mut
     m.boundaries.sort_unstable();
     m.boundaries.dedup();
     for (ri, o, k) in in_rec_faults {
-        m.fault_sites.push((m.starts[ri] + o, k));
+        if ri < m.starts.len() {
+            m.fault_sites.push((m.starts[ri] + o, k));
+        }
     }
 
     // block-level damage (moves / destroys record boundaries)
@@ -457,8 +484,10 @@ pub fn build_medium(recs: &mut Vec<Rec>, r: &mut Rng, plan: &FaultPlan, st: &mut
     if tail {
         m.tail_from = Some(m.bytes.len());
         let n = 65536 + r.below(8192);
-        let t = match r.below(3) {
+        let flavour = if torn.is_some() { 3 + r.below(2) } else { r.below(5) };
+        let t = match flavour {
             0 => r.bytes(n),
+            3 => vec![*r.pick(&[0xffu8, 0x20, b'A', 0x55]); n], // fill byte of unwritten sectors
             1 => {
                 // structured: printable text without NUL (keeps string arguments going)
                 let mut v = vec![0u8; n];
@@ -467,7 +496,7 @@ pub fn build_medium(recs: &mut Vec<Rec>, r: &mut Rng, plan: &FaultPlan, st: &mut
                 }
                 v
             }
-            _ => {
+            2 => {
                 // repeat the medium itself (or 'A's when empty)
                 let mut v = Vec::with_capacity(n);
                 while v.len() < n {
@@ -478,6 +507,14 @@ pub fn build_medium(recs: &mut Vec<Rec>, r: &mut Rng, plan: &FaultPlan, st: &mut
                         let chunk = m.bytes[..take].to_vec();
                         v.extend_from_slice(&chunk);
                     }
+                }
+                v
+            }
+            _ => {
+                // printable text in long runs
+                let mut v = vec![0u8; n];
+                for b in v.iter_mut() {
+                    *b = b'a' + r.below(26) as u8;
                 }
                 v
             }
